@@ -570,12 +570,14 @@ def readIndom (rf : ReadFn) (T : Tabs) (d : Indom) (ls : List Str) : Except Exc 
   let (es, rest) ← untilBlank id (fun _ => false) (readIndomRec rf T) ls
   pure (es.foldl setIndom d, rest)
 
+def writeIndomEntry (T : Tabs) (e : Str × List Val) : Except Exc (List Str) := do
+  let l2 ← writeValuesLine (← T.get c!"indom2") e.2
+  pure [nl e.1, l2]
+
 def writeIndom (T : Tabs) (d : Indom) : Except Exc (List Str) :=
   if d.isEmpty then .ok [] else do
-    let ls ← d.mapM fun (e : Str × List Val) => do
-      let l2 ← writeValuesLine (← T.get c!"indom2") e.2
-      pure [nl e.1, l2]
-    pure ([nl (c!"INDOM")] ++ ls.flatten ++ [nl []])
+    let ls ← d.mapM (writeIndomEntry T)
+    pure ([nl c!"INDOM"] ++ ls.flatten ++ [nl []])
 
 /-! ### TIMES -/
 
@@ -605,7 +607,10 @@ def readTimes (rf : ReadFn) (T : Tabs) (o : OutputTimes) (ls : List Str) : Excep
 
 /-! ### one-line and flag sections -/
 
-def digitsOfOptions (opts : List Int) : Str := (opts.drop 1).flatMap fun i => (toString i).toList
+/-- `str(i)` for an integer, as a character list -/
+def intStr (i : Int) : Str := (if i < 0 then ['-'] else []) ++ natDigits i.natAbs
+
+def digitsOfOptions (opts : List Int) : Str := (opts.drop 1).flatMap intStr
 
 /-- `[0] + [int(c) for c in s.rstrip().ljust(n).replace(' ', '0')]` -/
 def optionsOfStr (s : Str) (n : Nat) : Except Exc (List Int) := do
